@@ -97,6 +97,8 @@ def setup():
             'bridgepoint.__oal_lextab']
     for name in mods:
         m = sys.modules.get(name)
+        if m is None and name.endswith('tab'):
+            continue            # tables generated in memory and not re-imported (e.g. a cached parser): fine
         f = getattr(m, '__file__', None)
         if not f or not os.path.realpath(f).startswith(os.path.realpath(src)):
             raise HarnessError('%s not loaded from scratch build (%r)' % (name, f))
